@@ -10,11 +10,11 @@ import lib
 ID = 'C14'
 GEN_FILES = ['T_require', 'T_files_build', 'T_lexer', 'T_parser', 'T_pins_parser', 'T_pins_lexer',
              # source pins of the hand-modelled modules (gen/kernels_pins.py)
-             'T_pins_build']
+             'T_pins_build', 'T_pins_walker']
 COQ_PROPERTY = 'theories/Properties/C14.vo'
 COQ_EXTRA = ['theories/Proofs/ParserPins.vo', 'theories/Proofs/LexerPins.vo', 'theories/Proofs/ReqEmbedInstProofs.vo', 'theories/Proofs/SpecLexChunk.vo',
              'theories/Proofs/ReqEmbedEchoGood.vo', 'theories/Proofs/ReqEmbedSpecTokens.vo',
-             'theories/Proofs/BuildPins.vo']
+             'theories/Proofs/BuildPins.vo', 'theories/Proofs/WalkerPins.vo']
 MODEL = ('ExC14', 'c14_main.ml')
 MONITOR = ('MonC14', 'c14_mon_main.ml')
 CASE_TIMEOUT = 60
